@@ -14,6 +14,7 @@ import (
 	"os"
 	"path/filepath"
 	"strings"
+	"time"
 
 	"github.com/samsarahq/thunder/graphql"
 	"verifharness/pkg/fedgen"
@@ -37,6 +38,7 @@ type obs struct {
 	c   Case
 	res result
 	coq string // the case as a Coq term (empty: not comparable with the model)
+	runaway bool // a goroutine of the code under test is still running (cannot be stopped): end the run early
 }
 
 func runCase(run *vh.Run, idx int, c Case) *obs {
@@ -61,33 +63,47 @@ func runCase(run *vh.Run, idx int, c Case) *obs {
 	var flatTerm, planTerm string = "None", "None"
 
 	// plan and normalised query (through the verif hooks) on a separate parse
-	if q, perr := graphql.Parse(text, c.variables()); perr == nil {
-		func() {
-			defer func() {
-				if e := recover(); e != nil {
-					ob.res.planErr = "panic: " + fmt.Sprint(e)
+	// normalising / planning runs under a watchdog: a change that makes it loop or blow up must end as a reported
+	// failing input, not as a harness that never returns
+	finished := within(5*time.Second, func() {
+		if q, perr := graphql.Parse(text, c.variables()); perr == nil {
+			func() {
+				defer func() {
+					if e := recover(); e != nil {
+						ob.res.planErr = "panic: " + fmt.Sprint(e)
+					}
+				}()
+				p, err := g.exec.VerifPlan(q)
+				if err != nil {
+					ob.res.planErr = firstLine(err.Error())
+				} else {
+					ob.res.plan = p
+					planTerm = "(Some " + goPlan(p) + ")"
 				}
 			}()
-			p, err := g.exec.VerifPlan(q)
-			if err != nil {
-				ob.res.planErr = firstLine(err.Error())
-			} else {
-				ob.res.plan = p
-				planTerm = "(Some " + goPlan(p) + ")"
-			}
-		}()
-	}
-	if q, perr := graphql.Parse(text, c.variables()); perr == nil {
-		func() {
-			defer func() { recover() }()
-			if f, err := g.exec.VerifFlatten(q); err == nil && f != nil {
-				flatTerm = "(Some " + goSelSet(f, true) + ")"
-			}
-		}()
+		}
+		if q, perr := graphql.Parse(text, c.variables()); perr == nil {
+			func() {
+				defer func() { recover() }()
+				if f, err := g.exec.VerifFlatten(q); err == nil && f != nil {
+					flatTerm = "(Some " + goSelSet(f, true) + ")"
+				}
+			}()
+		}
+	})
+	if !finished {
+		failCapped(run, idx, "gateway-planning-does-not-terminate", "normalising/planning did not finish within 5 s; query: "+short(text, 600), c)
+		ob.res.timedOut = true
+		ob.runaway = true
+		run.Count(key, false)
+		return ob
 	}
 
-	gw, gwErr, timedOut := runGateway(g, &c)
+	gw, gwErr, timedOut, mutated := runGateway2(g, &c)
 	ob.res.gwJSON, ob.res.gwErr, ob.res.timedOut = gw, gwErr, timedOut
+	if mutated != "" {
+		failCapped(run, idx, "gateway-mutates-parsed-query", mutated+"; query: "+short(text, 400), c)
+	}
 	answerTerm := "None"
 	if gwErr == "" && !timedOut {
 		answerTerm = "(Some " + vh.CoqJSON(gw) + ")" // before any stripping
@@ -134,13 +150,14 @@ func runCase(run *vh.Run, idx int, c Case) *obs {
 	g.mu.Unlock()
 
 	// ---- oracles
-	nSub := len(ob.res.subs)
+	nSub := (len(ob.res.subs) + 1) / 2 // every request is executed twice (re-execution oracle)
 	hops := 0
 	for _, s := range ob.res.subs {
 		if strings.HasPrefix(s.Text, "_federation {") {
 			hops++
 		}
 	}
+	hops = (hops + 1) / 2
 	run.Hist(fmt.Sprintf("services:%d", len(c.Services)))
 	run.Hist(fmt.Sprintf("subrequests:%d", min(nSub, 6)))
 	run.Hist(fmt.Sprintf("hops:%d", min(hops, 4)))
@@ -223,6 +240,21 @@ func runCase(run *vh.Run, idx int, c Case) *obs {
 	return ob
 }
 
+// within runs f in a goroutine and reports whether it finished in time.
+func within(d time.Duration, f func()) bool {
+	done := make(chan struct{})
+	go func() {
+		defer close(done)
+		f()
+	}()
+	select {
+	case <-done:
+		return true
+	case <-time.After(d):
+		return false
+	}
+}
+
 func min(a, b int) int {
 	if a < b {
 		return a
@@ -276,6 +308,13 @@ func main() {
 			hangs++
 		}
 		all = append(all, ob)
+		if ob.runaway {
+			// the stuck computation keeps consuming CPU and memory: report what we have and stop
+			run.Hist("run-ended-early-after-runaway-computation")
+			emitCoq(run, nil)
+			run.Finish()
+			os.Exit(0)
+		}
 	}
 	// refresh: planners swapped while requests run (in a child process, see refresh.go)
 	if o.Replay == "" {
